@@ -57,7 +57,15 @@ impl ComparisonValue {
         match self {
             Self::String(s) => QueryNode::lucene_escape(s),
             Self::Integer(num) => num.to_string(),
-            Self::Float(num) => num.to_string(),
+            Self::Float(num) => {
+                // an integral float needs its decimal point, or it is read back as an integer
+                let s = num.to_string();
+                if num.is_finite() && !s.contains('.') {
+                    format!("{s}.0")
+                } else {
+                    s
+                }
+            }
             Self::Unbounded => "*".to_string(),
         }
     }
